@@ -21,8 +21,8 @@ cfg("laws_q", Systems='= {"bi", "chain", "ter"}', KTimes='= {"min"}', KConcs='= 
     Modes='= {"inline", "named", "subs"}', KRegs="<- KRegs6", TSources='= {"param", "subs", "ramp"}', Outs="<- Outs_q")
 cfg("rad_q", Systems='= {"zero", "feed", "zero2"}', KTimes='= {"min", "h"}', KConcs='= {"mM", "M"}', CPlans='= {0, 1, 2}', Laws='= {"rad"}',
     Modes='= {"inline", "named", "subs", "mixed"}', KRegs="<- KRegs6")
-cfg("laws_t", Systems="<- Sys_laws", KTimes="<- KT_two", KConcs="<- KC_two", CPlans="<- Plans_two", Laws='= {"arrhenius", "eyring", "alt"}',
-    Modes='= {"inline", "named", "subs", "mixed"}', KRegs="<- KRegs6", TSources='= {"param", "subs", "ramp"}', Outs="<- Outs_three")
+cfg("laws_t", Systems="<- Sys_laws", KTimes="<- KT_two", KConcs="<- KC_two", CPlans='= {1}', Laws='= {"arrhenius", "eyring", "alt"}',
+    Modes='= {"inline", "named", "subs", "mixed"}', KRegs="<- KRegs6", TSources='= {"param", "subs", "ramp"}', Outs="<- Outs_one")
 cfg("subs_t", Modes='= {"subs", "mixed"}')
 cfg("rates_t", Systems="<- Sys_all", KTimes="<- KT_all", KConcs="<- KC_all", CPlans="<- Plans_two", TUnits='= {"s"}',
     KRegs="<- KRegs6", Outs="<- Outs_one")
